@@ -71,6 +71,20 @@ theorem bytes_writelines_as_writes (s : SBytes) (ss : List (List Byte)) :
 /-- the constant the source uses keeps the side condition of the theorems below -/
 theorem real_chunk_size_pos : 0 < C18.Generated.READ_CHUNK_SIZE := by decide
 
+/-- the constants of `codecs.StreamReader.readline` (first read size 72, doubling up to 8000), re-read from the
+    interpreter's Lib/codecs.py on every run, keep the side conditions of the reader proofs (`rlLoop_spec` holds for
+    every positive read size and every positive growth factor) -/
+theorem codecs_readline_constants_ok :
+    0 < C18.Generated.CODECS_READLINE_SIZE ∧ 0 < C18.Generated.CODECS_READSIZE_FACTOR := by decide
+
+/-- the hand transliteration in Model.lean (section 3) was made from exactly this source: the docstring-free AST of
+    `codecs.StreamReader.{__init__, read, readline, reset, seek}`, `StreamWriter.{write, reset, seek}`,
+    `StreamRecoder.{__init__, read, readline, readlines, write, writelines, seek, reset, __getattr__}` and `EncodedFile`
+    of the interpreter that runs the implementation hashes to the digest pinned here (CPython 3.12.1); an interpreter
+    whose codecs.py differs in these functions breaks this obligation instead of being silently trusted -/
+theorem codecs_source_is_the_transliterated_one :
+    C18.Generated.CODECS_SOURCE_DIGEST = "8a193caf42c8e110a797e8f037452de5" := by decide
+
 /-- SpooledStringIO (over the codec reader with its byte / character / line buffers) returns, for every history
     in the statement's domain and every `max_size` and READ_CHUNK_SIZE > 0, what io.StringIO(newline='') returns —
     the FULL clause, no restriction on the text (round 3: `readline` / `next` / iteration were repaired to join the
